@@ -91,6 +91,9 @@ func c01GenRedis(rt *rapid.T) c01RCase {
 		if rapid.Bool().Draw(rt, "single") {
 			pool = []int{rapid.IntRange(1, 2).Draw(rt, "the")}
 		}
+		if rapid.Bool().Draw(rt, "onecmd") { // a miscounting command must not be diluted by the others
+			cmds = []string{rapid.SampledFrom(cmds).Draw(rt, "thecmd")}
+		}
 		for i := 0; i < n; i++ {
 			c.Ops = append(c.Ops, c01ROp{rapid.SampledFrom(cmds).Draw(rt, "c"), rapid.SampledFrom(pool).Draw(rt, "o")})
 		}
